@@ -302,6 +302,8 @@ impl Context {
         ensures
             //# K-back-fwd
             final(h).wf() && fwd(*old(h), *final(h)) && ret is Ok,
+            //# K-back-closes-the-act-as-backed [C05]
+            final(h).st(task.id@) is Backed,
 //@@ proof at=beforeloop1
         let ghost act_tid0 = task.id@;
 //@@ loop 1
@@ -315,11 +317,11 @@ impl Context {
 //@@ loop 2
         invariant
             //# anc-ok
-            parent is Some ==> wf_task(*h, *parent->Some_0),
+            (parent is Some ==> wf_task(*h, *parent->Some_0) && parent->Some_0.node.level < task.node.level) && wf_task(*h, **task) && h.st(task.id@) is Backed,
 //@@ loop 3
         invariant
             //# paths-ok
-            tasks_ok(*h, __v3@),
+            tasks_ok(*h, __v3@) && h.st(task.id@) is Backed,
 //@@ end
 }
 
@@ -404,6 +406,8 @@ impl Task {
             old(h).action is Some && guarded_event(old(h).action->Some_0.event) && st_terminal(old(h).st(self.id@)) ==> ret is Err && *final(h) == *old(h),
             //# A2-rejected-back-has-no-effect
             old(h).action is Some && old(h).action->Some_0.event is Back && ret is Err ==> *final(h) == *old(h),
+            //# A6-an-accepted-back-closes-the-act-as-backed [C05]
+            old(h).action is Some && old(h).action->Some_0.event is Back && ret is Ok ==> final(h).st(self.id@) is Backed,
             //# A2-rejected-abort-has-no-effect
             old(h).action is Some && old(h).action->Some_0.event is Abort && ret is Err ==> *final(h) == *old(h),
             //# A2-error-needs-a-code
